@@ -297,7 +297,7 @@ func C17(r *explore.Run) {
 	if r.Tier == "thorough" {
 		maxAll = 12
 	}
-	treeSpaces(r, 2, func(c *explore.Ctx, e *Entry, s string, res ParseResult) {
+	treeSpacesMode(r, 2, "full", func(c *explore.Ctx, e *Entry, s string, res ParseResult) {
 		checkTraversal(c, res.Roots, !e.Single, maxAll, e.Name+": "+s)
 		outcomeTree(c, e, s, res)
 	})
@@ -465,7 +465,7 @@ func C19(r *explore.Run) {
 	r.Extra("programs", len(catalog.Structs))
 	r.Extra("disagreements_checked", 0)
 	var nodeTypes sync.Map
-	treeSpaces(r, 2, func(c *explore.Ctx, e *Entry, s string, res ParseResult) {
+	treeSpacesMode(r, 2, "full", func(c *explore.Ctx, e *Entry, s string, res ParseResult) {
 		for _, v := range allNodes(res.Roots) {
 			for sig, d := range checkPosSpec(v.Node) {
 				c.Violation(sig, e.Name+": "+s, d)
